@@ -14,16 +14,29 @@ def life(text, ref):
     return dict(cat="model_checking", engine="X", text=text, tech=X_TECH, ref=ref)
 
 CHECKS = {
+    "C01": dict(cat="exploration", engine="R", note="Trusted: Tendermint (replaced by a driver feeding identical ABCI streams), the Go toolchain's -overlay mechanism for the clock and map-iteration seams; maps with more than 8 entries get a subset of the runtime's iteration freedom; concurrency between consensus and non-consensus calls is not explored (calls are inserted between consensus calls).",
+                text="Two real application instances are fed the same ABCI block stream; replica B differs by exactly one enumerated environment deviation (wall-clock offset, map-iteration word, Simulate/CheckTx/Query inserted at every stream position for every transaction of the script). Every consensus response and app hash must be byte-identical. Exhaustive over the enumerated single deviations of three scripts that cover every custom message type, the staking hooks and tie-breaking selections.",
+                tech="deviation-bounded exhaustive exploration of environment choices (clock, map order, interleaved non-consensus calls) on the real ABCI boundary, differential oracle between replicas", ref="5/C01, 3.3"),
     "C02": dict(cat="model_checking", engine="X+E", text="Every block advance of the lifecycle, capacity, fault-sequence and reward-minting explorations runs the real end-blockers and begin-blocker without recovery: a panic (chain halt) or a transition exceeding the CPU watchdog is a violation; transaction panics must surface as rejected transactions (compared with real DeliverTx in the conformance leg); the selection functions are enumerated exhaustively over small input domains under a CPU guard.", tech="explicit-state model checking of the implementation with halt/non-termination oracle + exhaustive input enumeration of the selection functions under a CPU-time watchdog", ref="5/C02"),
+    "C03": dict(cat="fault_enumeration", engine="R", note="Trusted: Tendermint driver as in C01; a restart is a new app.New over the same database inside the harness process, so it resets everything an application instance holds but not Go package-level variables (none remain in x/ and app/ after the D2 repair; their residue is covered by the Simulate insertions, which stay in-process like a real node).",
+                text="For every script, a restart from the database after every commit, a crash after every transaction index of every block (block re-executed from the last commit), and a Simulate of every script transaction at every stream position; all later consensus responses and app hashes must equal those of the uninterrupted replica.",
+                tech="exhaustive crash/restart-point and simulated-transaction enumeration on the real ABCI boundary, differential oracle against the uninterrupted run", ref="5/C03, 3.3"),
     "C04": life("Exhaustive search of the real handlers/end-blockers over the lifecycle alphabet. Every transition's bank flows are compared with the quotes of the orders it created, the allowed recipients, and the change of the recomputed market/order obligations (dust tolerance per settlement); every state compares claimed+accrued income with an independent bytes x blocks integral.", "5/C04, A.1"),
     "C05": life("Exhaustive search over the lifecycle alphabet plus fault-sequence scenarios (silent providers, re-assignment, give-up, cancel, updates on an existing model). At the step that ends a never-stored order: refund == charge, shards gone, pledges untouched, model restored or removed with its alias, no stale expiry entry.", "5/C05"),
     "C06": life("Exhaustive search over the lifecycle alphabet; in every reachable state each escrow balance is compared with the obligations recomputed from the records (A.1/A.2); module-paid operations failing for lack of funds are reported.", "5/C06, A.1, A.2"),
     "C07": life("Exhaustive search over the lifecycle alphabet; for every transition and provider, coins moved between provider and node escrow must equal the change of recorded collateral net of debt plus capacity pledge; used capacity range in every state.", "5/C07, A.2"),
+    "C08": life("Exhaustive search with the node begin-blocker executed at every height over {add/remove capacity (round and non-round sizes), claim, store+complete, terminate, next block} by two providers, above and below the baseline: per block supply delta == coinbase events == reward counter delta <= schedule bound; per state claimed+claimable per provider against an independent capacity x blocks reference and sum <= minted; per claim amount (whole coins less debt) and recipient.", "5/C08, A.2"),
+    "C09": life("Exhaustive search of a small lifecycle in which every state offers every unauthorised request (request type x signer role x relayer x crafted commit id / owner-field mismatch / replayed signature / sid kid variants); an accepted unauthorised request must leave model, alias, orders, shards and expiry entry byte-identical; authorised twins must succeed (non-vacuity).", "5/C09, A.5"),
+    "C10": life("Exhaustive search of a small lifecycle with an adversary node whose declared TxAddresses range over subsets of {order creator, provider, itself}; every message type with a creator/provider pair is sent by the adversary claiming each relevant provider, plus third-party / sponsor-misuse store submissions; every accepted adversarial message must leave all other parties' records and balances byte-identical.", "5/C10, A.5"),
     "C11": life("Exhaustive search over the lifecycle alphabet plus fault-sequence scenarios with a ghost paid-until height per completed shard: not released early, released at the end-block of its term, model alive while a paid shard remains and gone with the last one.", "5/C11, A.3"),
     "C12": life("Exhaustive enumeration of provider silence patterns per timeout interval (all complete/silent choices, optional late joiner, update orders, migrations) up to the give-up bound, plus the lifecycle alphabet: no unresolved order without a timeout entry, resolution within the bound, no change to a fully stored order by the timeout mechanism.", "5/C12, A.4"),
     "C13": life("Exhaustive explicit-state search of the real handlers and end-blockers over the lifecycle alphabet; the four referential-integrity relations are evaluated in every reachable state and a violation is attributed to the step that first broke it. Bounded (depth, menus) but complete within the bound.", "5/C13"),
     "C14": life("Exhaustive explicit-state search of the real handlers and end-blockers over the lifecycle alphabet; per-provider counters and pool totals are recomputed from the shard and pledge records in every reachable state.", "5/C14"),
     "C15": dict(cat="exploration", engine="E+X", text="Exhaustive enumeration of RandomIndex and RandomSP (incl. GetNextSuperNodes, SelectNodes) inputs over small attribute domains (all populations up to 4/5 nodes over 11 classes, all ignore lists up to size 2, counts, cursors, 10 seeds) with the placement oracle on every result, plus the same oracle on every assignment made during the lifecycle and fault-sequence explorations of the real handlers.", tech="exhaustive input enumeration (engine E) + explicit-state exploration of the implementation (engine X)", ref="5/C15"),
+    "C17": life("Exhaustive search over the did alphabet (bindings with valid / stale / foreign-key / replayed / malformed proofs for cosmos and eip155 accounts, every remove/keep partition on key rotation by bound and unbound creators, payment-address updates for sid and key DIDs): registry agreement in every state; binding, unbinding and payment-address step clauses on every transition.", "5/C17"),
+    "C18": dict(cat="model_checking", engine="X+R", text="In every state reached by the lifecycle, fault-report, staking/super-node and timeout explorations the six modules' real ExportGenesis -> JSON -> Validate() -> real InitGenesis into empty custom stores is executed and the raw custom stores are compared (absent counters / cursor normalised to their defaults, and that normalisation is itself validated by applying every enabled operation to both states); plus the full pipeline ExportAppStateAndValidators -> ValidateGenesis -> InitChain on a fresh application -> two blocks after every block of the engine-R scripts.", tech="explicit-state model checking of the implementation with a round-trip (export/import) differential oracle in every state + full ABCI re-genesis of real instances", ref="5/C18"),
+    "C19": life("Exhaustive search from two completed orders (plus a migration hand-over): every reporter kind x accused x fault content variant, every recoverer kind, block advance across the penalty tick and expiry; each recorded fault is validated against the pre-state and each report/recover step must leave balances, orders, shards, nodes and other providers' pledges byte-identical.", "5/C19, A.5"),
+    "C20": life("Exhaustive search over delegate / undelegate / redelegate (two nodes and an outsider, two validators, amounts below / at / above the share threshold, everything, more than the balance), capacity changes across the threshold, status / validator resets and the full end-blocker of the module manager, from a fresh root and from a root with a super node: in every state a node with the super role satisfies the defining predicate recomputed through the staking keeper.", "5/C20"),
     "C16": life("Exhaustive search over the lifecycle alphabet with updates and force-pushes plus fault-sequence scenarios: ids strictly increasing, at most one order in flight per model, updates accepted only on the latest committed base, history appended / last entry replaced at completion.", "5/C16"),
 }
 
@@ -59,7 +72,7 @@ def main():
         "setup_cmd": "bin/setup",
         "hooks": {
             "guard": "verif",
-            "enable": "go build -tags verif (bin/check does this); the tag currently guards no file in /repo: every seam the harness needs is already exported",
+            "enable": "go build -tags verif (bin/check does this); the tag currently guards no file in /repo: every seam the harness needs is already exported, and the clock / map-iteration seams are std-library overlays (overlay/gen.py) that do not touch /repo",
             "baseline_off_cmd": "cd /repo && go test -mod=mod -json -vet=off -count=1 -timeout 25m ./...",
             "source_commits": hooks_commits,
             "add_only": True,
@@ -67,6 +80,8 @@ def main():
         "engines": [
             {"name": "X", "path": "mc/engine", "serves_properties": sorted(p for p, c in CHECKS.items() if "X" in c["engine"]),
              "kind_free_text": "explicit-state explorer over flat snapshots of the real application stores; transitions are the repository's own message handlers and begin/end-blockers; conformance leg replays explorer traces through real ABCI"},
+            {"name": "R", "path": "mc/replica", "serves_properties": sorted(p for p, c in CHECKS.items() if "R" in c["engine"]),
+             "kind_free_text": "replica / crash differential on the ABCI boundary of real application instances, binary built with a std overlay owning the wall clock and the runtime's map iteration start"},
             {"name": "E", "path": "mc/checks/selectE.go", "serves_properties": sorted(p for p, c in CHECKS.items() if "E" in c["engine"]),
              "kind_free_text": "exhaustive enumeration of selection-function inputs on real keeper stores under a CPU-time guard"},
         ],
